@@ -110,6 +110,7 @@ type Task struct {
 	started   bool
 	parent    int
 	opSeq     uint64
+	prio      int
 }
 
 type timer struct {
@@ -148,6 +149,9 @@ type Sim struct {
 	raceSeen map[string]bool
 	atomVC   map[uintptr]*VC
 
+	pct       bool
+	pctAt     []int
+	pctLow    int
 	poolFresh bool
 	idPtrs    []*int
 	pools     []*Pool
@@ -181,7 +185,19 @@ func Run(cfg RunConfig, ch Chooser, mainFn func()) *Result {
 	s.raceSeen = map[string]bool{}
 	s.atomVC = map[uintptr]*VC{}
 	// per-run scheduling policy (swarm): drawn first, so it is part of the replay
-	s.pSwitch = []int{1, 3, 8, 16}[ch.Choose("cfg.pswitch", 4)]
+	// 0..3: random walk with a per-run switch probability; 4: PCT-style
+	// priority scheduling (Burckhardt et al.): tasks get random priorities, the
+	// highest-priority enabled task always runs, and at d random steps the
+	// running task drops below everybody else. Finds ordering bugs of small
+	// depth that a uniform random walk dilutes.
+	s.pSwitch = []int{1, 3, 8, 16, -1}[ch.Choose("cfg.pswitch", 5)]
+	if s.pSwitch < 0 {
+		s.pct = true
+		d := 1 + ch.Choose("pct.depth", 3)
+		for i := 0; i < d; i++ {
+			s.pctAt = append(s.pctAt, 1+ch.Choose("pct.at", 400))
+		}
+	}
 	s.timeJump = []int{0, 0, 1, 4}[ch.Choose("cfg.timejump", 4)]
 	if !cfg.LatePreempt {
 		s.drawPreemptPlan()
@@ -257,6 +273,9 @@ func (s *Sim) newTask(name, site string, parent int) *Task {
 		p.vc.tick(p.id)
 	}
 	t.vc.tick(t.id)
+	if s.pct {
+		t.prio = 1 + s.ch.Choose("pct.prio", 1000)
+	}
 	s.tasks = append(s.tasks, t)
 	return t
 }
@@ -439,6 +458,19 @@ func (s *Sim) policyPick(en []*Task) *Task {
 		pick = en[0]
 		for _, t := range en[1:] {
 			if t.lastRun < pick.lastRun {
+				pick = t
+			}
+		}
+	case s.pct:
+		for _, at := range s.pctAt {
+			if at == s.steps && curEnabled {
+				s.pctLow--
+				c.prio = s.pctLow // below everybody, and below earlier demotions
+			}
+		}
+		pick = en[0]
+		for _, t := range en[1:] {
+			if t.prio > pick.prio {
 				pick = t
 			}
 		}
